@@ -66,18 +66,19 @@ def big : Nat := 1000000000000000000000
 def seeded : Nat := 5000000000000
 def UTIA := "transfer/channel-0/utia"
 def UOSMO := "transfer/channel-1/uosmo"
+def UATOM := "transfer/channel-10/uatom"
 
 def genesis (legacy : Bool) : State :=
   let accounts := ["a0", "a1", "a2", "a3", "a4", "b0", "b1", "s", "i"]
   let bal : List ((String × String) × Nat) :=
     accounts.map (fun x => ((x, "nria"), big)) ++
-    (["a0", "a1", "a2", "a3"].flatMap fun x => [UTIA, "xtok", UOSMO].map fun a => ((x, a), seeded)) ++
+    (["a0", "a1", "a2", "a3"].flatMap fun x => [UTIA, "xtok", UOSMO, UATOM].map fun a => ((x, a), seeded)) ++
     [(("r1", "xtok"), U128_MAX - 1000), (("a4", "xtok"), U128_MAX)]
   { postAspen := !legacy, postBlackburn := !legacy,
     bal := bal, sudo := "s", ibcSudo := "i", relayers := ["i"],
     fees := [(.rollup, ⟨1, 1001⟩), (.transfer, ⟨2, 1002⟩), (.ics20, ⟨3, 1003⟩), (.initBridge, ⟨4, 1004⟩),
              (.lock, ⟨5, 1005⟩), (.unlock, ⟨6, 1006⟩), (.bridgeTransfer, ⟨7, 1007⟩), (.bridgeSudo, ⟨8, 1008⟩)],
-    feeAssets := ["nria", UTIA], knownAssets := ["nria", UTIA, UOSMO],
+    feeAssets := ["nria", UTIA], knownAssets := ["nria", UTIA, UOSMO, UATOM],
     vals := if legacy then [("va", 10), ("vb", 10)] else [("va", 10), ("vb", 10), ("vc", 10)],
     valCount := if legacy then 0 else 3,
     pairs := if legacy then [] else [("BTC/USD", 0), ("ETH/USD", 1)],
@@ -575,10 +576,23 @@ def run (lines : Array String) : Driver.Report := Id.run do
         let args := if k = "ack" then rest.drop 1 else rest
         if okRes && (k = "timeout" || (k = "ack" && rest.headD "" = "err")) then
           match args with
-          | [src, denom, amt, _, _] =>
+          | [src, denom, amt, sender, memo] =>
             let sc := src.toNat?.getD 0
             if !hasLeading denom sc then
               st := { st with returned := setN st.returned (sc, denom) (getN st.returned (sc, denom) + amt.toNat?.getD 0) }
+            -- C04: a refund publishes a deposit only for a withdrawal from a rollup, to the
+            -- refunded bridge account, in that bridge's asset and rollup, with the equal credit
+            let newDeps := newDeposits pre.deps post.deps
+            for d in newDeps do
+              match lookup post.bridges d.bridge with
+              | some b =>
+                if memo ≠ "fromrollup" || d.bridge ≠ sender || d.asset ≠ denom || d.amount ≠ amt.toNat?.getD 0 then
+                  r := r.addMonitor "deposit_backed" n line s!"refund published a deposit for {d.bridge} of {d.amount} {d.asset} that is not the refunded transfer"
+                if b.asset ≠ d.asset || b.rollup ≠ d.rollup then
+                  r := r.addMonitor "deposit_backed" n line s!"refund published a deposit for {d.bridge} in {d.asset}/rollup {d.rollup}, bridge is {b.asset}/rollup {b.rollup}"
+                if balOf post d.bridge d.asset ≠ balOf pre d.bridge d.asset + d.amount then
+                  r := r.addMonitor "deposit_backed" n line "deposit of a refund not matched by an equal credit of the bridge account in the deposit's asset"
+              | none => r := r.addMonitor "deposit_backed" n line s!"refund published a deposit naming {d.bridge}, which is not a bridge account"
           | _ => pure ()
       | _, _ => pure ()
       -- C18 escrow identity after every op
